@@ -3,7 +3,7 @@ from . import ref
 from .c01_replay import _cfg
 
 
-def replay_roundtrip(msgs, enc, blocked, cfg, many=None):
+def replay_roundtrip(msgs, enc, blocked, cfg, many=None, closes=1):
     from cardutil import mciipm
     cfgs = _cfg(cfg)
     ms = [ref.concrete_msg(m, cfgs) for m in msgs]
@@ -18,7 +18,8 @@ def replay_roundtrip(msgs, enc, blocked, cfg, many=None):
         else:
             for m in ms:
                 w.write(dict(m))
-        w.close()
+        for _ in range(closes):
+            w.close()
         got = list(mciipm.IpmReader(f, encoding=enc, blocked=blocked, **kw))
     except Exception as e:
         return True, 'raised %s: %s' % (type(e).__name__, e), 'C06/exception'
